@@ -263,6 +263,10 @@ def execute(prop, desc):
             fired["unattributable"] = 1
     elif rec.exc is None:
         fired["no-failure"] = 1
+    elif not rec.aborted and rec.sim.hung is None:
+        # only calls and store operations were made to fail: what run raises for them is a CallError
+        viol.append(O.V("not-a-callerror", f"a call or store operation failed (Plan {how}) and run raised {rec.exc!r} "
+                                           f"instead of CallError"))
     viol.extend(O.o_term(rec, world, hist)[:1])
     res = result(desc, hist, viol)
     for k, v in fired.items():
